@@ -401,3 +401,32 @@ def process_prologue(ctx, repo, rule):
             ok = cfg.dominates(prev, cs[0])
         ctx.check(ok, rule, fi, cs[0] if cs else fi.node, "%s() unconditionally before the first evaluation" % nm, "Model.process does not call self.%s() unconditionally before the first update_pars / flush_junctions / update_links: %s" % (nm, why), stmt_text="prologue:%s" % nm)
         prev = cs[0] if cs else None
+
+
+PER_STEP_METHODS = ("update", "resolve_outflows", "balance")
+STEP_ATTRS = {"vals", "_vals", "_cached_outflow", "_cache", "_dx", "_source_popsize_cache_time", "_source_popsize_cache_val"}
+
+
+def stateless_step_rule(ctx, repo, rule):
+    ctx.rule(rule, "a step is a function of the previous step: the per-step methods of the compartment, link, characteristic and parameter families (update / resolve_outflows / balance) store on self only the step's own slots (vals / _vals), the per-step outflow cache, the link cache and the derivative - no other attribute survives from one step (or one run) to the next")
+    n = 0
+    for base in ("Compartment", "Link", "Characteristic", "Parameter"):
+        for mname in PER_STEP_METHODS:
+            try:
+                fam = K.family_methods(repo, mname, base=base)
+            except AnalysisError:
+                fam = []  # this family has no method of that name
+            for ci, fi in fam:
+                me = K.self_name(fi)
+                n += 1
+                bad = []
+                for s, t, k, v in astq.stores(fi.node):
+                    if k in ("for", "with"):
+                        continue
+                    b = astq.strip_subs(t)
+                    if isinstance(b, ast.Attribute) and astq.is_name(b.value, me) and b.attr not in STEP_ATTRS:
+                        bad.append((s, b.attr))
+                    if isinstance(b, ast.Attribute) and isinstance(b.value, ast.Attribute) and astq.is_name(b.value.value, me) and b.value.attr == "flush_link" and b.attr in ("vals", "_cache"):
+                        continue
+                ctx.check(not bad, rule, fi, bad[0][0] if bad else fi.node, "%s.%s keeps no state of its own between steps" % (ci.name, mname), "`%s` in %s.%s stores `self.%s`, which outlives the step: what the method does at a later step (or in a later run of the same object, or in a copy) depends on what happened before, not only on the previous step's values" % (norm(bad[0][0])[:70] if bad else "", ci.name, mname, bad[0][1] if bad else ""))
+    ctx.require(n >= 10, "%s: fewer per-step methods (%d) than confirmed (10)" % (rule, n))
